@@ -1191,6 +1191,10 @@ impl hyper::service::Service<Request<Incoming>> for CaptivePortalService {
     }
 }
 
+#[cfg(kani)]
+#[path = "/verif/kani/iroh_relay/server.rs"]
+mod verif_kani;
+
 #[cfg(test)]
 mod tests {
     use std::{net::Ipv4Addr, sync::Arc, time::Duration};
